@@ -18,3 +18,5 @@ import SpoxModel.Props.C15
 #print axioms C15.construct_raises_iff
 #print axioms C15.step_total
 #print axioms C15.history_total
+#print axioms C15.outputs_insim
+#print axioms C15.chain_types_permissive
